@@ -429,7 +429,103 @@ func genC01(c *Ctx) {
 				out := Try(func() string { rl.MultByMonomial(p, kk, o2); return Mat(Canon(rl, o2, false, false)) })
 				c.Emit(fmt.Sprintf("rpmono %s %d %s", Vec(qs[:lvl+1]), kk, Mat(rows)), out)
 				c.Count("ring:aut+monomial")
+				// Ring-level scalar operations against the abstract layer
+				p2 := rl.NewPoly()
+				for i := 0; i <= lvl; i++ {
+					copy(p2.Coeffs[i], patVec(r, c.pat(), N, qs[i]))
+				}
+				rows2 := RawRows(p2)[:lvl+1]
+				sc := r.U64()
+				if r.Intn(3) == 0 {
+					sc = r.Below(5)
+				}
+				bigS := new(big.Int).SetUint64(r.U64())
+				bigS.Mul(bigS, new(big.Int).SetUint64(r.U64()))
+				if r.Intn(2) == 0 {
+					bigS.Neg(bigS)
+				}
+				type rop struct {
+					name string
+					arg  string
+					f    func(out ring.Poly)
+				}
+				ops := []rop{
+					{"MulScalar", U(sc), func(o ring.Poly) { rl.MulScalar(p, sc, o) }},
+					{"MulScalarThenAdd", U(sc), func(o ring.Poly) { o.Copy(p2); rl.MulScalarThenAdd(p, sc, o) }},
+					{"MulScalarThenSub", U(sc), func(o ring.Poly) { o.Copy(p2); rl.MulScalarThenSub(p, sc, o) }},
+					{"AddScalar", U(sc), func(o ring.Poly) { rl.AddScalar(p, sc, o) }},
+					{"SubScalar", U(sc), func(o ring.Poly) { rl.SubScalar(p, sc, o) }},
+					{"MulScalarBigint", bigS.String(), func(o ring.Poly) { rl.MulScalarBigint(p, bigS, o) }},
+					{"MulScalarBigintThenAdd", bigS.String(), func(o ring.Poly) { o.Copy(p2); rl.MulScalarBigintThenAdd(p, bigS, o) }},
+					{"AddScalarBigint", bigS.String(), func(o ring.Poly) { rl.AddScalarBigint(p, bigS, o) }},
+					{"SubScalarBigint", bigS.String(), func(o ring.Poly) { rl.SubScalarBigint(p, bigS, o) }},
+					{"EvalPolyScalar", U(sc), func(o ring.Poly) { rl.EvalPolyScalar([]ring.Poly{p, p2, p}, sc, o) }},
+					{"Add", "0", func(o ring.Poly) { rl.Add(p, p2, o) }},
+					{"Sub", "0", func(o ring.Poly) { rl.Sub(p, p2, o) }},
+					{"Neg", "0", func(o ring.Poly) { rl.Neg(p, o) }},
+				}
+				for _, op := range ops {
+					o3 := rl.NewPoly()
+					bs := new(big.Int).Set(bigS)
+					out := Try(func() string { op.f(o3); return Mat(Canon(rl, o3, false, false)) })
+					c.Emit(fmt.Sprintf("ringop %s %s %s %s %s", op.name, Vec(qs[:lvl+1]), op.arg, Mat(rows), Mat(rows2)), out)
+					// the same against an integer reference (property predicate on the real code)
+					if ref := ringopRef(op.name, op.arg, qs[:lvl+1], rows, rows2); ref != "" {
+						dd := ""
+						if ref != out {
+							dd = "result not congruent to the integer reference"
+						}
+						c.Probe("ringop_ref", fmt.Sprintf("%s %s %s %s %s", op.name, Vec(qs[:lvl+1]), op.arg, Mat(rows), Mat(rows2)), "C01/Ring."+op.name+"/not-congruent", dd)
+					}
+					d := ""
+					if bs.Cmp(bigS) != 0 {
+						d = "big.Int argument modified"
+					}
+					c.Probe("ringop_arg_intact", op.name+" "+bs.String(), "C01/Ring."+op.name+"/bigint-argument-modified", d)
+					c.Count("ringop:" + op.name)
+				}
 			}
 		}
 	}
+}
+
+// ringopRef computes the Ring-level scalar operations over the integers (math/big).
+func ringopRef(name, arg string, qs []uint64, r1, r2 [][]uint64) string {
+	k, ok := new(big.Int).SetString(arg, 10)
+	if !ok {
+		return ""
+	}
+	out := make([][]uint64, len(qs))
+	for i, q := range qs {
+		Q := bi(q)
+		out[i] = make([]uint64, len(r1[i]))
+		for j := range r1[i] {
+			a, b := bi(r1[i][j]), bi(r2[i][j])
+			var v *big.Int
+			switch name {
+			case "MulScalar", "MulScalarBigint":
+				v = mul(a, k)
+			case "MulScalarThenAdd", "MulScalarBigintThenAdd":
+				v = add(b, mul(a, k))
+			case "MulScalarThenSub":
+				v = sub(b, mul(a, k))
+			case "AddScalar", "AddScalarBigint":
+				v = add(a, k)
+			case "SubScalar", "SubScalarBigint":
+				v = sub(a, k)
+			case "EvalPolyScalar":
+				v = add(mul(add(mul(a, k), b), k), a)
+			case "Add":
+				v = add(a, b)
+			case "Sub":
+				v = sub(a, b)
+			case "Neg":
+				v = new(big.Int).Neg(a)
+			default:
+				return ""
+			}
+			out[i][j] = new(big.Int).Mod(v, Q).Uint64()
+		}
+	}
+	return Mat(out)
 }
